@@ -72,6 +72,10 @@ var srcUnits = []srcUnit{
 		funcs: []string{"IsLeap", "ToJd", "JdTo", "GetMonthLen"}},
 	{dir: "cal_types/hijri", path: modPath + "/cal_types/hijri", lean: "Hijri", pre: "hijri",
 		funcs: []string{"IsLeap", "ToJd", "JdTo", "GetMonthLen", "MonthData.GetDateFromJd", "MonthData.GetJdFromDate"}, fix: map[string]bool{"useMonthData": false}},
+	// the same package with the month table on: ToJd and GetMonthLen go through the table first (JdTo, which tests a
+	// nil-able pointer, is not in the fragment)
+	{dir: "cal_types/hijri", path: modPath + "/cal_types/hijri", lean: "HijriT", pre: "hijriT",
+		funcs: []string{"IsLeap", "MonthData.GetJdFromDate", "ToJd", "GetMonthLen"}, fix: map[string]bool{"useMonthData": true}},
 }
 
 // functions the translator does not read but maps to a definition of lean/Starcal/SrcExt.lean
@@ -97,6 +101,7 @@ func init() {
 // structures of the translated packages themselves (all fields integers or booleans) are emitted as Lean structures
 var srcOwnStructs = map[string]string{} // qualified Go name -> Lean structure text
 var srcOwnStructOrder []string
+var srcOwnStructNames = map[string]string{}
 
 func ownStruct(n *types.Named, pre string) (string, bool) {
 	st, ok := n.Underlying().(*types.Struct)
@@ -106,8 +111,9 @@ func ownStruct(n *types.Named, pre string) (string, bool) {
 	q := n.Obj().Pkg().Path() + "." + n.Obj().Name()
 	name := pre + "_" + n.Obj().Name()
 	if _, done := srcOwnStructs[q]; done {
-		return name, true
+		return srcOwnStructNames[q], true // one Lean structure per Go type, whichever unit met it first
 	}
+	srcOwnStructNames[q] = name
 	var fields []string
 	for i := 0; i < st.NumFields(); i++ {
 		f := st.Field(i)
@@ -312,6 +318,14 @@ func loadSrcPkg(u srcUnit) (*srcPkg, error) {
 							sp.scalars[o] = "Bool"
 						} else if t.Info()&types.IsInteger != 0 {
 							sp.scalars[o] = "Int"
+						}
+					case *types.Pointer:
+						// a package-level pointer to one of the package's own structures (hijri's monthData): a parameter
+						// of the functions that read it, like the scalars (assumed non-nil: the library sets it in init)
+						if n, ok := t.Elem().(*types.Named); ok && n.Obj().Pkg() == tp {
+							if ls, ok := ownStruct(n, u.pre); ok {
+								sp.scalars[o] = ls
+							}
 						}
 					}
 				}
@@ -1041,6 +1055,8 @@ func (t *fnTrans) expr(e ast.Expr) lexpr {
 						args = append(args, t.val(se.X))
 					} else if _, isSlice := n.Underlying().(*types.Slice); isSlice {
 						args = append(args, t.val(se.X))
+					} else if st, isSt := n.Underlying().(*types.Struct); isSt && st.NumFields() > 0 {
+						args = append(args, t.val(se.X))
 					}
 				}
 			}
@@ -1067,6 +1083,9 @@ func (t *fnTrans) expr(e ast.Expr) lexpr {
 			return lexpr{"(" + ext + " " + strings.Join(args, " ") + ")", true}
 		}
 		tp, ok := t.all[fn.Pkg().Path()]
+		if fn.Pkg().Path() == t.sp.unit.path {
+			tp, ok = t.sp, true // a second specialised copy of the same package calls its own copies
+		}
 		if !ok {
 			bail("call of %s (package not translated)", qual)
 		}
@@ -2064,6 +2083,9 @@ func (t *fnTrans) calleeDecl(c *ast.CallExpr) (*srcPkg, *ast.FuncDecl) {
 		return nil, nil
 	}
 	tp := t.all[fn.Pkg().Path()]
+	if fn.Pkg().Path() == t.sp.unit.path {
+		tp = t.sp
+	}
 	if tp == nil {
 		return nil, nil
 	}
@@ -2329,7 +2351,9 @@ func genSrc() (string, error) {
 			soft = append(soft, fmt.Sprintf("package %s: %v", u.dir, err))
 			continue
 		}
-		all[u.path] = sp
+		if _, dup := all[u.path]; !dup {
+			all[u.path] = sp // the first unit of a package is the one other packages call
+		}
 		order = append(order, sp)
 	}
 	defs := map[string]*srcDef{}
